@@ -26,6 +26,7 @@ type ctxFacts struct {
 	lookups   map[*ssa.Function]bool // methods returning (T, bool) from a map lookup
 	clone     *ssa.Function
 	scopeQ    map[*ssa.Function]bool // scope-stack queries taking a scope argument
+	scopeQK   map[*ssa.Function]string // queries for one kind of scope (inLoop()): the scope constant they stand for
 	globalQ   *ssa.Function          // "current scope is the program scope"
 }
 
@@ -111,6 +112,7 @@ func buildCtxFacts(w *World) (*ctxFacts, error) {
 			}
 		}
 	}
+	cf.scopeCounterQueries()
 	// a method that returns a changed clone of its receiver (enter a nested scope: clone, then
 	// update the clone) is itself a way of cloning, not a way of changing the receiver
 	if cf.clone != nil {
@@ -433,6 +435,11 @@ func c07Clone(w *World, cf *ctxFacts, r *Result, rules ...string) {
 					r.Triv(rule, key, pos, reason)
 					continue
 				}
+				// a helper of a block reader: every caller hands it the clone it works on itself
+				if cloneAtAllCallers(w, cf, fn) {
+					r.Ok(rule, key, pos, m.what+" in a helper that every caller hands a clone / freshly created context")
+					continue
+				}
 				r.Bad(rule, key, pos, fmt.Sprintf("%s changes (%s) the context it received instead of a clone: definitions made inside the construct leak into the enclosing scope", FuncName(fn), m.what))
 			case origins["clone"] || origins["fresh"]:
 				r.Ok(rule, key, pos, m.what+" on a clone / freshly created context")
@@ -446,6 +453,32 @@ func c07Clone(w *World, cf *ctxFacts, r *Result, rules ...string) {
 }
 
 // freshAtAllCallers: every call of fn passes a context created by the fresh-context constructor.
+// cloneAtAllCallers: every call of fn passes a context that is, at that point, a clone or a
+// freshly created context (never the context the caller itself received).
+func cloneAtAllCallers(w *World, cf *ctxFacts, fn *ssa.Function) bool {
+	n := 0
+	for _, caller := range w.Funcs("parser") {
+		for _, b := range caller.Blocks {
+			for _, ins := range b.Instrs {
+				c, ok := ins.(*ssa.Call)
+				if !ok || c.Call.StaticCallee() != fn {
+					continue
+				}
+				n++
+				for i, p := range fn.Params {
+					if cf.isCtx(p.Type()) && i < len(c.Call.Args) {
+						o := cf.ctxOrigin(c.Call.Args[i], map[ssa.Value]bool{})
+						if !(o["clone"] || o["fresh"]) || o["param"] || o["other"] || o["captured"] {
+							return false
+						}
+					}
+				}
+			}
+		}
+	}
+	return n > 0
+}
+
 func freshAtAllCallers(w *World, cf *ctxFacts, fn *ssa.Function) bool {
 	n := 0
 	for _, caller := range w.Funcs("parser") {
@@ -1087,6 +1120,18 @@ func c07Place(w *World, cf *ctxFacts, r *Result) {
 			for _, h := range closure {
 				if h == fn || asking[h] {
 					scopes = append(scopes, scopeConstsIn(h)...)
+				}
+			}
+			// queries that stand for one kind of scope (inLoop(), inFunction())
+			for _, h := range closure {
+				for _, b := range h.Blocks {
+					for _, ins := range b.Instrs {
+						for _, t := range staticTargets(w, ins) {
+							if k, ok := cf.scopeQK[t]; ok {
+								scopes = append(scopes, k)
+							}
+						}
+					}
 				}
 			}
 			if fnOrig != fn {
@@ -4122,5 +4167,99 @@ func c09Once(w *World, r *Result, rule string) {
 	}
 	if n == 0 {
 		r.Bad(rule, "once:none", "-", "no place found where a parser for an imported file is created")
+	}
+}
+
+// scopeCounterQueries: scopes kept as one counter per kind instead of a stack. A function
+// that receives a scope and, under the test "it is the constant K", adds one to the field F
+// makes F "the number of open K scopes"; a parameterless boolean method that returns F > 0
+// is the query "is there an enclosing K".
+func (cf *ctxFacts) scopeCounterQueries() {
+	cf.scopeQK = map[*ssa.Function]string{}
+	counterOf := map[string]string{} // "<struct type>.<field>" -> scope constant
+	fieldKey := func(t types.Type, idx int) string {
+		if p, ok := t.Underlying().(*types.Pointer); ok {
+			t = p.Elem()
+		}
+		return t.String() + "." + structFieldName(t, idx)
+	}
+	for _, fn := range cf.w.Funcs("parser") {
+		var sp *ssa.Parameter
+		for _, p := range fn.Params {
+			if isNamed(p.Type(), "scope") {
+				sp = p
+			}
+		}
+		if sp == nil {
+			continue
+		}
+		for _, b := range fn.Blocks {
+			for _, ins := range b.Instrs {
+				st, ok := ins.(*ssa.Store)
+				if !ok {
+					continue
+				}
+				fa, ok := st.Addr.(*ssa.FieldAddr)
+				if !ok || !isInt(st.Val.Type()) {
+					continue
+				}
+				bo, ok := st.Val.(*ssa.BinOp)
+				if !ok || bo.Op != token.ADD || !isConstInt(bo.Y, 1) {
+					continue
+				}
+				// the block is reached only where the scope parameter equals a constant
+				for d := b; d != nil; d = d.Idom() {
+					parent := d.Idom()
+					if parent == nil {
+						break
+					}
+					c, neg := condOf(parent)
+					cmp, ok := c.(*ssa.BinOp)
+					if !ok || neg || cmp.Op != token.EQL || cmp.X != ssa.Value(sp) {
+						continue
+					}
+					k, ok := cmp.Y.(*ssa.Const)
+					if !ok || k.Value == nil || k.Value.Kind() != constant.String {
+						continue
+					}
+					if parent.Succs[0] == d || parent.Succs[0].Dominates(b) {
+						counterOf[fieldKey(fa.X.Type(), fa.Field)] = constant.StringVal(k.Value)
+					}
+				}
+			}
+		}
+	}
+	if len(counterOf) == 0 {
+		return
+	}
+	for _, fn := range cf.w.Funcs("parser") {
+		recv := fn.Signature.Recv()
+		res := fn.Signature.Results()
+		if recv == nil || !types.Identical(recv.Type(), cf.ctxType) || len(fn.Params) != 1 || res.Len() != 1 || !isBool(res.At(0).Type()) || len(fn.Blocks) != 1 {
+			continue
+		}
+		ret, ok := fn.Blocks[0].Instrs[len(fn.Blocks[0].Instrs)-1].(*ssa.Return)
+		if !ok {
+			continue
+		}
+		cmp, ok := ret.Results[0].(*ssa.BinOp)
+		if !ok || cmp.Op != token.GTR || !isConstInt(cmp.Y, 0) {
+			continue
+		}
+		switch x := cmp.X.(type) {
+		case *ssa.Field:
+			if k, ok := counterOf[fieldKey(x.X.Type(), x.Field)]; ok {
+				cf.scopeQK[fn] = k
+			}
+		case *ssa.UnOp:
+			if fa, ok := x.X.(*ssa.FieldAddr); ok {
+				if k, ok := counterOf[fieldKey(fa.X.Type(), fa.Field)]; ok {
+					cf.scopeQK[fn] = k
+				}
+			}
+		}
+	}
+	for fn := range cf.scopeQK {
+		cf.scopeQ[fn] = true
 	}
 }
